@@ -14,7 +14,7 @@ type Chooser interface {
 type Rapid struct{ T *rapid.T }
 
 func (r Rapid) Int(lo, hi int, label string) int { return rapid.IntRange(lo, hi).Draw(r.T, label) }
-func (r Rapid) Bool(label string) bool          { return rapid.Bool().Draw(r.T, label) }
+func (r Rapid) Bool(label string) bool           { return rapid.Bool().Draw(r.T, label) }
 
 // Pick draws one element of a non-empty slice.
 func Pick[T any](c Chooser, xs []T, label string) T { return xs[c.Int(0, len(xs)-1, label)] }
